@@ -647,6 +647,13 @@ class Interp:
         base = op.replace("WithOverflow", "").replace("Unchecked", "")
         if base in ("Add", "Mul", "BitAnd", "BitOr", "BitXor") and is_const(a) and not is_const(b):
             a, b = b, a           # commutative: constants second, so that  c | x  and  x | c  are the same term
+        if base == "BitOr" and not checked:
+            asm = assemble_bytes(("bin", "BitOr", aty, a, b))
+            if asm is not None:
+                R = ("model", "uint-from-bytes", asm[0], asm[1], ("ref", asm[2]), self.site())
+                set_ty(R, aty)
+                S.set_dom(R, Dom(0, 2 ** (8 * asm[1]) - 1))
+                return R
         if base in ("Add", "Sub", "Mul", "Div", "Rem", "BitAnd", "BitOr", "BitXor", "Shl", "Shr"):
             rng = ty_range(aty)
             ca, cb = const_val(a), const_val(b)
@@ -1052,6 +1059,47 @@ def promoted_read(loc, v):
     if isinstance(v, tuple) and v[0] == "ld":
         return project(base, loc[1])
     return v
+
+
+def assemble_bytes(sv):
+    """(order, n, base location) if sv is the unsigned integer whose n bytes are the elements 0..n-1 of one byte sequence in
+    big / little endian order - written as shifts and ors of the widened elements, or as an array handed to from_xx_bytes"""
+    parts = []          # (element, shift)
+
+    def walk(x, shift):
+        while isinstance(x, tuple) and x[0] == "cast":
+            x = x[2]
+        if isinstance(x, tuple) and x[0] == "bin" and x[1] in ("BitOr", "Add", "BitXor"):
+            return walk(x[3], shift) and walk(x[4], shift)
+        if isinstance(x, tuple) and x[0] == "bin" and x[1] in ("Shl", "ShlW"):
+            c = const_val(x[4])
+            rng = ty_range(x[2])
+            if not isinstance(c, int) or rng is None or rng[1] < 2 ** (c + 8) - 1:
+                return False          # the shifted byte must stay inside the type
+            return walk(x[3], shift + c)
+        if isinstance(x, tuple) and x[0] == "bin" and x[1] == "Mul":
+            c = const_val(x[4])
+            if isinstance(c, int) and c > 0 and c & (c - 1) == 0:
+                return walk(x[3], shift + c.bit_length() - 1)
+            return False
+        if isinstance(x, tuple) and x[0] == "elem" and isinstance(x[2], int) and len(x) > 3:
+            parts.append((x, shift))
+            return True
+        return False
+    if not walk(sv, 0) or not (2 <= len(parts) <= 8):
+        return None
+    base = parts[0][0][3]
+    if any(p[0][3] != base for p in parts):
+        return None
+    n = len(parts)
+    by_idx = sorted(parts, key=lambda p: p[0][2])
+    if [p[0][2] for p in by_idx] != list(range(n)):
+        return None
+    if [p[1] for p in by_idx] == [8 * (n - 1 - i) for i in range(n)]:
+        return ("be", n, base)
+    if [p[1] for p in by_idx] == [8 * i for i in range(n)]:
+        return ("le", n, base)
+    return None
 
 
 def stable(sv, depth=0):
